@@ -19,13 +19,13 @@
 import ChumskyModel.Model.Spec
 namespace Chumsky
 
-inductive NG where
+inductive NGram where
   | lift (g : G)
-  | nestedIn (a : NG) (b : G)
-  | then_ (a b : NG)
-  | or_ (a b : NG)
-  | orNot (a : NG)
-  | mapWithSpan (a : NG)
+  | nestedIn (a : NGram) (b : G)
+  | then_ (a b : NGram)
+  | or_ (a b : NGram)
+  | orNot (a : NGram)
+  | mapWithSpan (a : NGram)
   deriving Repr, Inhabited
 
 structure NEnv where
@@ -70,7 +70,7 @@ def innerThenEndM (ra : Out) (rend : St → Out) : Out :=
 def innerThenEndS (pa : SOut) (pend : SS → SOut) : SOut :=
   pa.andThen fun va si1 e2 => (pend si1).andThen fun _ si2 e3 => .ok va si2 (e2 ++ e3)
 
-def runN : Nat → NEnv → Mode → NG → St → Out
+def runN : Nat → NEnv → Mode → NGram → St → Out
   | 0, _, _, _, _ => .oof
   | n + 1, ne, m, .lift g, st => run n ne.base m g st
   | n + 1, ne, m, .then_ a b, st =>
@@ -128,7 +128,7 @@ def rehomeEm (at_ : Nat) : List Emis → List Emis
 
 /-- the reading: `b` yields a group and consumes it; `a` must match the children COMPLETELY; the result is `a`'s, the outer
     position is just after `b`; inner emissions follow `b`'s, in order, reported at the outer position -/
-def pegN : Nat → NEnv → NG → SS → Val → SOut
+def pegN : Nat → NEnv → NGram → SS → Val → SOut
   | 0, _, _, _, _ => .oof
   | n + 1, ne, .lift g, s, ctx => peg n ne.base g s ctx
   | n + 1, ne, .then_ a b, s, ctx =>
@@ -163,7 +163,7 @@ def pegN : Nat → NEnv → NG → SS → Val → SOut
         | .oof => .oof
 
 /-- `parse` / `check` of a two-level grammar -/
-def parseTopN (fuel : Nat) (ne : NEnv) (m : Mode) (g : NG) : TopOut :=
+def parseTopN (fuel : Nat) (ne : NEnv) (m : Mode) (g : NGram) : TopOut :=
   match (runN fuel ne m g St.init).andThen (fun v st1 =>
           (run fuel ne.base .check .end_ st1).andThen fun _ st2 => .ok v st2) with
   | .panic w => .panic w
@@ -175,7 +175,7 @@ def parseTopN (fuel : Nat) (ne : NEnv) (m : Mode) (g : NG) : TopOut :=
       | none => ne.base.ek.expectedFound [] none (ne.base.mkSpan st.pos st.pos)
     .result ⟨none, st.errs.map (·.err) ++ [alt]⟩ st
 
-def pegTopN (fuel : Nat) (ne : NEnv) (g : NG) : SOut :=
+def pegTopN (fuel : Nat) (ne : NEnv) (g : NGram) : SOut :=
   (pegN fuel ne g ⟨0, []⟩ .unit).andThen fun v s1 e1 =>
     (peg fuel ne.base .end_ s1 .unit).andThen fun _ s2 e2 => .ok v s2 (e1 ++ e2)
 
